@@ -55,9 +55,10 @@ CLAIMS = {
                      "(C09_enter_indep, C09_resim, C09_resim_twice, C09_history_indep, C09_function). Independence of the iteration order of the internal "
                      "sets: check_state(FINISHED) under the allocation invariant, check_state(WORKING) and check_removing_placed_workplace for every "
                      "state, and the PERT update on finish-to-start networks give the same state for every visiting order, hence whole runs do "
-                     "(C09_order_finished/working/remove/pert_fs, C09_simulate_order, C09_simulate_order_fs). For SS/FF/SF networks the PERT values "
-                     "are genuinely order-dependent in the model (machine-checked example C09_order_pert_ff_counterexample); no effect on logs was "
-                     "found on the real code, so this part is search-only. The address/hash/process clause is inherently about the runtime and is validated by "
+                     "(C09_order_finished/working/remove/pert_fs, C09_simulate_order, C09_simulate_order_fs). On SS/FF/SF networks the wave PERT is "
+                     "genuinely order-dependent (machine-checked example C09_order_pert_ff_counterexample): the real code iterated sets there and its "
+                     "logs depended on task hashes — found by search, repaired in /repo (waves now follow task_list order, which is exactly the "
+                     "model's canonical order, so C09_simulate_order covers every network), witnesses replayed on every run. The address/hash/process clause is inherently about the runtime and is validated by "
                      "the stream (permuted task/component hashes, rebuilt objects, fresh processes with different PYTHONHASHSEED) — partial by nature.",
                 design="6 C09", technique="Lean 4 proof that initialisation overwrites every dynamic field (determinism) + real runs under permuted set-iteration orders and hash seeds"),
     "C15": dict(text="Proved for the model as C15_partial: pausing at ANY k <= M and resuming with both initialisation flags off gives exactly the state of "
